@@ -6,7 +6,7 @@ From FT.lib Require Import Num Arr ArrLemmas Lower NumArr.
 From FT.gen Require Import Common Interp2d Interp3d Vinterp2d Vinterp3d FteikCommon Fteik2d Fteik3d Ray2d Ray3d.
 From FT.model Require Import Api.
 From FT.proofs Require Import Sweep2dProofs OperatorsR ApiProofs.
-From FT.proofs Require Operators3R.
+From FT.proofs Require Operators3R InitSym InitExact.
 Import ListNotations.
 Open Scope R_scope.
 
@@ -115,6 +115,88 @@ Theorem C05_ray_default_budget_unit_invariant :
        0 < c -> step <> 0 -> ray_max_step sh (map (Rmult c) gs) (c * step) ms = ray_max_step sh gs step ms.
 Proof. exact @ApiProofs.ray_max_step_unit_invariant. Qed.
 
+(* the whole off-node source initialisation (sub-cell inverse distances dzi, dz2i included) under slowness scaling, heterogeneous media: times x c, placeholder entries stay (caveat Hbig: related entries are on the same side of the absolute placeholder 1e5 = finding F10/F11) *)
+Theorem C05_init_scale_slowness :
+  forall (nz nx : Z) (c dx dz : R) (grad grad' : bool) (slow tt tt' tg tg' : arr R) (sg sg' : arr Z)
+         (vzero xsa zsa : R) (zsi xsi : Z),
+       0 < c ->
+       (0 <= zsi < nz - 1)%Z ->
+       (0 <= xsi < nx - 1)%Z ->
+       InitExact.TRel nz nx c tt tt' ->
+       let r := fteik2d_p2 dx dz grad 2 nx nz slow tt tg sg vzero xsa xsi zsa zsi in
+       let r' := fteik2d_p2 dx dz grad' 2 nx nz (smap c slow) tt' tg' sg' (c * vzero) xsa xsi zsa zsi in
+       (forall i j : Z,
+        (0 <= i < nz)%Z ->
+        (0 <= j < nx)%Z ->
+        t2rel c (get 0 (fst (fst r)) [i; j]) (get 0 (fst (fst r')) [i; j]) ->
+        get 0 (fst (fst r)) [i; j] < Fteik2d.Big <-> get 0 (fst (fst r')) [i; j] < Fteik2d.Big) ->
+       InitExact.TRel nz nx c (fst (fst r)) (fst (fst r')).
+Proof. exact @InitExact.fteik2d_init_scale_slowness. Qed.
+
+(* and under length scaling (dz, dx x c; source position in grid units unchanged) *)
+Theorem C05_init_scale_length :
+  forall (nz nx : Z) (c dx dz : R) (grad grad' : bool) (slow tt tt' tg tg' : arr R) (sg sg' : arr Z)
+         (vzero xsa zsa : R) (zsi xsi : Z),
+       0 < c ->
+       (0 <= zsi < nz - 1)%Z ->
+       (0 <= xsi < nx - 1)%Z ->
+       InitExact.TRel nz nx c tt tt' ->
+       let r := fteik2d_p2 dx dz grad 2 nx nz slow tt tg sg vzero xsa xsi zsa zsi in
+       let r' := fteik2d_p2 (c * dx) (c * dz) grad' 2 nx nz slow tt' tg' sg' vzero xsa xsi zsa zsi in
+       (forall i j : Z,
+        (0 <= i < nz)%Z ->
+        (0 <= j < nx)%Z ->
+        t2rel c (get 0 (fst (fst r)) [i; j]) (get 0 (fst (fst r')) [i; j]) ->
+        get 0 (fst (fst r)) [i; j] < Fteik2d.Big <-> get 0 (fst (fst r')) [i; j] < Fteik2d.Big) ->
+       InitExact.TRel nz nx c (fst (fst r)) (fst (fst r')).
+Proof. exact @InitExact.fteik2d_init_scale_length. Qed.
+
+(* for c >= 1 the caveat is a condition on the reference run alone *)
+Theorem C05_init_scale_slowness_ge1 :
+  forall (nz nx : Z) (c dx dz : R) (grad grad' : bool) (slow tt tt' tg tg' : arr R) (sg sg' : arr Z)
+         (vzero xsa zsa : R) (zsi xsi : Z),
+       1 <= c ->
+       (0 <= zsi < nz - 1)%Z ->
+       (0 <= xsi < nx - 1)%Z ->
+       InitExact.TRel nz nx c tt tt' ->
+       let r := fteik2d_p2 dx dz grad 2 nx nz slow tt tg sg vzero xsa xsi zsa zsi in
+       let r' := fteik2d_p2 dx dz grad' 2 nx nz (smap c slow) tt' tg' sg' (c * vzero) xsa xsi zsa zsi in
+       (forall i j : Z,
+        (0 <= i < nz)%Z ->
+        (0 <= j < nx)%Z -> get 0 (fst (fst r)) [i; j] < Fteik2d.Big -> c * get 0 (fst (fst r)) [i; j] < Fteik2d.Big) ->
+       InitExact.TRel nz nx c (fst (fst r)) (fst (fst r')).
+Proof. exact @InitExact.fteik2d_init_scale_slowness_ge1. Qed.
+
+(* the down copy uses dz exactly where the east copy uses dx (transposition pairing) *)
+Theorem C05_init_down_is_transpose_of_east :
+  forall (nz nx M M' : Z) (dx dz : R) (grad : bool) (slow : arr R) (vzero xsa : R) (xsi : Z) 
+         (zsa : R) (zsi : Z) (dzu dzd dxe : R) (td td' tt : arr R) (sg : arr Z),
+       wf slow ->
+       shape slow = [(nz - 1)%Z; (nx - 1)%Z] ->
+       wf tt ->
+       shape tt = [nz; nx] ->
+       (grad = true -> wf sg /\ shape sg = [nz; nx; 2%Z]) ->
+       wf td ->
+       wf td' ->
+       shape td = [M] ->
+       shape td' = [M'] ->
+       (nx <= M)%Z ->
+       (nx <= M')%Z ->
+       (0 <= zsi < nz - 1)%Z ->
+       (0 <= xsi < nx - 1)%Z ->
+       let r := InitSym.east_phase dx dz grad nx slow vzero xsa xsi zsa zsi dzu dzd dxe (td, tt, sg) in
+       let r' :=
+         InitSym.down_phase dz dx grad nx (InitSym.transpose (nz - 1) (nx - 1) slow) vzero zsa zsi xsa xsi dzu dzd dxe
+           (td', InitSym.transpose nz nx tt, InitSym.transpose_sgn nz nx sg) in
+       (forall i j : Z, (0 <= i < nz)%Z -> (0 <= j < nx)%Z -> get 0 (snd (fst r')) [j; i] = get 0 (snd (fst r)) [i; j]) /\
+       (grad = true ->
+        forall i j : Z,
+        (0 <= i < nz)%Z ->
+        (0 <= j < nx)%Z ->
+        get 0%Z (snd r') [j; i; 1%Z] = get 0%Z (snd r) [i; j; 0%Z] /\
+        get 0%Z (snd r') [j; i; 0%Z] = get 0%Z (snd r) [i; j; 1%Z]).
+Proof. exact @InitSym.down_is_transpose_of_east_explicit. Qed.
+
 Print Assumptions C05_t_ana_scale_slowness.
 Print Assumptions C05_t_ana_scale_length.
 Print Assumptions C05_t_anad_scale_slowness.
@@ -127,3 +209,7 @@ Print Assumptions C05_t_ana_3d_scale_slowness.
 Print Assumptions C05_t_ana_3d_scale_length.
 Print Assumptions C05_slowness_handed_to_kernel_scales.
 Print Assumptions C05_ray_default_budget_unit_invariant.
+Print Assumptions C05_init_scale_slowness.
+Print Assumptions C05_init_scale_length.
+Print Assumptions C05_init_scale_slowness_ge1.
+Print Assumptions C05_init_down_is_transpose_of_east.
